@@ -15,7 +15,7 @@ from . import prng
 
 FLOWS = {
     2: [{"shape": [16, 20], "x_range": 1.0}, {"shape": [20, 16], "x_range": 0.8}],
-    3: [{"shape": [10, 10, 12], "x_range": 1.2}, {"shape": [10, 8, 12], "x_range": 1.2}],
+    3: [{"shape": [10, 10, 12], "x_range": 1.2}, {"shape": [10, 8, 12], "x_range": 1.2}, {"shape": [10, 12, 10], "x_range": 1.0}],  # the last one is taller in y than in x
 }
 BODY_KINDS = {
     2: ["cylinder_dyn", "cylinder_presc", "rod_nodal", "rod_elem", "rod_edge"],
